@@ -20,6 +20,22 @@ path named inside the subtree), and of state_digest after every turn.
 
 The subtree leaves are derived from the ALLOWED_* tables (and DEFAULTS["scheduler"], which has no table) of
 configs/validate.py at run time, so a key the validator learns to accept is enumerated automatically.
+
+Two further dimensions of the scenario ("for all worlds and turn sequences", through every way a turn is run):
+
+    entry   how the turns are driven: "turn"  = Orchestrator.run_turn once per turn (turn ids 1..n);
+                                      "batch" = the agent batch driver clematis.engine.orchestrator.
+                                                _run_agents_parallel_batch(ctx, state, tasks) with the whole sequence as
+                                                ONE batch (turn id 1) -- the second public way to run turns; with the
+                                                parallel gate closed it is documented to fall back to the sequential loop
+    route   how the planner asks for a reflection pass (the thing t3.allow_reflection gates):
+                                      "stash" = the flag the LLM planner path leaves on state (_planner_reflection_flag);
+                                      "plan"  = the plan object itself carries reflection=True (rule-based deliberate()
+                                                wrapped through the documented override hook orchestrator.t3_deliberate)
+
+The differential is always within one (entry, route): same entry, same route, with vs without the subtree.  Because a
+gate predicate may be a conjunction of several leaves of the closed subtree (enabled && agents && max_workers > 1), every
+gate whose subtree is small (<= K2_QUICK_MAX_LEAVES leaves) gets the k=2 leg in the quick tier as well.
 """
 from __future__ import annotations
 
@@ -363,6 +379,62 @@ def seqs_for(thorough: bool, k: int, bname: str):
     return SEQS_SMALL
 
 
+# entry points and planner request routes (module docstring).  The default variant is the historical one.
+ENTRIES = ("turn", "batch")
+ROUTES = ("stash", "plan")
+DEFAULT_VARIANT = ("stash", "turn")
+# a gate with at most this many leaves gets its k=2 leg in the quick tier too (conjunctive gate predicates)
+K2_QUICK_MAX_LEAVES = 5
+# the request route only matters to the feature that consumes the request
+ROUTE_GATES = ("reflection",)
+for _n in ("_run_agents_parallel_batch", "disable_staging"):
+    if not callable(getattr(W.orch_pkg, _n, None)):
+        raise HarnessError("seam missing: clematis.engine.orchestrator.%s" % _n)
+if not callable(getattr(W.orch_core, "deliberate", None)):
+    raise HarnessError("seam missing: orchestrator.core.deliberate")
+
+
+def ks_for(gname: str, n_leaves: int, thorough: bool) -> List[int]:
+    if thorough or n_leaves <= K2_QUICK_MAX_LEAVES:
+        return [1, 2]
+    return [1]
+
+
+def k2_on_batch(n_leaves: int) -> bool:
+    return n_leaves <= K2_QUICK_MAX_LEAVES
+
+
+def variants_for(gname: str, k: int, bname: str, n_leaves: int, thorough: bool):
+    """[(route, entry, sequences, worlds)] explored for one (gate, k, base).
+
+    * (stash, turn): the full sequence alphabet of the tier, both worlds;
+    * (plan, turn): gates in ROUTE_GATES, same sequences, both worlds;
+    * (stash, batch): k=1 for every gate (quick: the agent-switching sequence on the rich world W2; thorough: the 4
+      representative sequences on both worlds); k=2 for the gates with a small subtree (all sequences of the
+      tier's k=2 leg, both worlds)."""
+    out = [("stash", "turn", seqs_for(thorough, k, bname), WORLDS)]
+    if gname in ROUTE_GATES:
+        out.append(("plan", "turn", seqs_for(thorough, k, bname), WORLDS))
+    if k == 1:
+        if thorough:
+            out.append(("stash", "batch", SEQS_SMALL, WORLDS))
+        else:
+            out.append(("stash", "batch", SEQS_SMALL[1:2], ["W2"]))
+    elif k2_on_batch(n_leaves):
+        out.append(("stash", "batch", SEQS_SMALL if thorough else SEQS_SMALL[:3], WORLDS))
+    return out
+
+
+def _vtag(route: str, entry: str) -> str:
+    """signature / outcome suffix of a non-default variant"""
+    t = ""
+    if entry != "turn":
+        t += "@" + entry
+    if route != "stash":
+        t += "@" + route
+    return t
+
+
 # ----------------------------------------------------------------------------- execution + observation
 _IDENTITY = {"t1.jsonl", "t2.jsonl", "t4.jsonl", "apply.jsonl", "turn.jsonl"}
 # raw wall-clock fields in the NON-canonical streams (CI normalisation only touches the identity logs and
@@ -418,11 +490,44 @@ def _tree(root: str) -> Dict[str, bytes]:
     return out
 
 
-def execute(scratch: str, world: str, raw: dict, turns, tag: str) -> Dict[str, Any]:
+def _planner_requesting_reflection(ctx, state, bundle):
+    """route "plan": the repository's own rule-based planner, its plan marked as asking for a reflection pass"""
+    plan = W.orch_core.deliberate(bundle)
+    plan.reflection = True
+    return plan
+
+
+_DEFAULT_ENC: List[Any] = []
+
+
+def _default_encoder():
+    if not _DEFAULT_ENC:
+        try:
+            from clematis.adapters.embeddings import BGEAdapter
+            _DEFAULT_ENC.append(BGEAdapter(dim=32))
+        except Exception as e:
+            raise HarnessError("seam missing: clematis.adapters.embeddings.BGEAdapter(dim=32): %r" % (e,))
+    return _DEFAULT_ENC[0]
+
+
+def _reset_driver_state() -> None:
+    """the batch driver switches log staging on in a context variable; an execution that dies inside the driver
+    leaves it on -- the harness owns that state between executions"""
+    try:
+        W.orch_pkg.disable_staging()
+    except Exception as e:
+        raise HarnessError("cannot reset log staging: %r" % (e,))
+
+
+def execute(scratch: str, world: str, raw: dict, turns, tag: str, route: str = "stash",
+            entry: str = "turn") -> Dict[str, Any]:
     """One execution of the real orchestrator.  Everything the run writes lands under one scratch root:
     logs/ (CLEMATIS_LOG_DIR), snaps/ (t4.snapshot_dir), cwd/ (process working directory, for relative default
     paths such as logs/quality) and whatever <ROOT>/... path a leaf names."""
+    if route not in ROUTES or entry not in ENTRIES:
+        raise HarnessError("unknown variant route=%r entry=%r" % (route, entry))
     W.reset_globals()
+    _reset_driver_state()
     ex = W.Exec(scratch, tag)
     ex.activate()
     # the snapshot sidecar (.meta) stamps created_at from the wall clock unless SOURCE_DATE_EPOCH is set
@@ -432,31 +537,60 @@ def execute(scratch: str, world: str, raw: dict, turns, tag: str) -> Dict[str, A
     old = os.getcwd()
     os.chdir(cwd)
     obs: Dict[str, Any] = {"lines": [], "per": [], "error": None}
+    hook_installed = False
     try:
         cfg = W.make_cfg(None, snap_dir=ex.snap_dir, base=_subst(raw, ex.root))
         state = W.make_world(world)
-        # the planner's reflection request (stashed by the LLM planner path) is set, so that
-        # t3.allow_reflection is the ONLY barrier in front of the reflection pass; reflection writes go to
+        # the planner's reflection request is set in every scenario, so that t3.allow_reflection is the ONLY
+        # barrier in front of the reflection pass; reflection writes go to
         # state["memory_index"] (a separate, initially empty index: the reflection embedder is 32-dimensional,
         # the world's retrieval vectors are 5-dimensional), which state_digest covers.
-        state["_planner_reflection_flag"] = True
+        if route == "stash":       # left on state by the LLM planner path
+            state["_planner_reflection_flag"] = True
+        else:                      # carried by the plan object (planner override hook of the orchestrator package)
+            if "t3_deliberate" in vars(W.orch_pkg):
+                raise HarnessError("orchestrator.t3_deliberate is already set (leaked from an earlier execution)")
+            setattr(W.orch_pkg, "t3_deliberate", _planner_requesting_reflection)
+            hook_installed = True
         state["memory_index"] = InMemoryIndex()
         if world == "W2":
             # W2 carries GEL edges from an earlier GEL-on session; the boot hook would reset state["graph"] (empty snapshot
             # directory), so it is marked as already booted: snapshots then contain those edges while the gate is closed
             state["_boot_loaded"] = True
-        for i, (agent, text) in enumerate(turns, start=1):
-            ctx = W.make_ctx(cfg, agent, i)
+        if entry == "turn":
+            for i, (agent, text) in enumerate(turns, start=1):
+                ctx = W.make_ctx(cfg, agent, i)
+                try:
+                    res = W.run_turn(ctx, state, text)
+                except Exception as e:  # an exception is an observable effect, too
+                    obs["error"] = "turn%d:%s" % (i, type(e).__name__)
+                    obs["error_msg"] = repr(e)[:200]
+                    break
+                obs["lines"].append(res.line)
+                obs["per"].append(W.jd(W.state_digest(state)))
+        else:
+            # the driver clones the context per agent WITHOUT ctx.enc, so the turns embed their query with the
+            # engine's default 32-dimensional adapter: the world's episode vectors are re-embedded with that same
+            # adapter (the world is otherwise unchanged)
+            for ep in state["mem_index"]._eps:
+                ep["vec_full"] = _default_encoder().encode([ep.get("text", "")])[0]
+            tasks = [(str(agent), str(text)) for agent, text in turns]
+            ctx = W.make_ctx(cfg, tasks[0][0], 1)
             try:
-                res = W.run_turn(ctx, state, text)
-            except Exception as e:  # an exception is an observable effect, too
-                obs["error"] = "turn%d:%s" % (i, type(e).__name__)
+                results = W.orch_pkg._run_agents_parallel_batch(ctx, state, tasks)
+                obs["lines"] = [getattr(r, "line", None) for r in results]
+            except Exception as e:
+                obs["error"] = "batch:%s" % type(e).__name__
                 obs["error_msg"] = repr(e)[:200]
-                break
-            obs["lines"].append(res.line)
             obs["per"].append(W.jd(W.state_digest(state)))
         obs["tree"] = _tree(ex.root)
     finally:
+        if hook_installed:
+            try:
+                delattr(W.orch_pkg, "t3_deliberate")
+            except AttributeError:
+                pass
+        _reset_driver_state()
         os.chdir(old)
         ex.close()
     return obs
@@ -563,9 +697,9 @@ def allowed_extra_for(raw: dict, vcfg: dict, ref_vcfg: dict) -> Tuple[str, ...]:
 
 
 # ----------------------------------------------------------------------------- reference store
-def _ref_key(gname: str, bname: str, world: str, seq) -> str:
+def _ref_key(gname: str, bname: str, world: str, seq, route: str = "stash", entry: str = "turn") -> str:
     g = gname if bname == "allon" else "-"
-    return "%016x" % h64([g, bname, world, seq])
+    return "%016x" % h64([g, bname, world, seq, route, entry])
 
 
 _REF_MEMO: Dict[str, Any] = {}
@@ -582,30 +716,34 @@ def _ref_worker(chunk, st: Stats, scratch: str):
     _quiet()
     wdir = os.path.join(scratch, "w%d" % os.getpid())
     os.makedirs(wdir, exist_ok=True)
-    for gname, bname, raw, world, seq in chunk:
-        a = execute(wdir, world, raw, seq, "ref")
-        b = execute(wdir, world, raw, seq, "ref")
+    for gname, bname, raw, world, seq, route, entry in chunk:
+        a = execute(wdir, world, raw, seq, "ref", route, entry)
+        b = execute(wdir, world, raw, seq, "ref", route, entry)
         st.add("transitions", 2 * len(seq))
         st.add("reference_runs", 2)
+        st.distinct("variants", [route, entry])
+        vt = _vtag(route, entry)
         # absolute clause: no artefact of a feature whose gate is off, even without any subtree
         vcfg = _validate(raw)
         bad = forbidden_artefacts(vcfg, a.get("tree", {})) + forbidden_artefacts(vcfg, b.get("tree", {}))
         st.add("validated", 2)
         for g2, path in bad:
-            st.violation("%s:-:artefact:%s" % (g2, path),
-                         "base %s (gate of %s OFF, subtree absent), %s, turns %s: artefact %s was written" % (
-                             bname, g2, world, seq, path),
-                         {"gate": gname, "base": bname, "assign": [], "world": world, "turns": seq})
+            st.violation("%s:-:artefact:%s%s" % (g2, path, vt),
+                         "base %s (gate of %s OFF, subtree absent), %s, turns %s, entry=%s route=%s: artefact %s was "
+                         "written" % (bname, g2, world, seq, entry, route, path),
+                         {"gate": gname, "base": bname, "assign": [], "world": world, "turns": seq,
+                          "route": route, "entry": entry})
             st.distinct("outcomes", "artefact-with-gate-off:%s" % path)
         d = diff(a, b)
         if d is not None and not bad:
-            raise HarnessError("harness nondeterministic: base %s world %s seq %s: %s" % (bname, world, seq, d))
+            raise HarnessError("harness nondeterministic: base %s world %s seq %s entry=%s route=%s: %s" % (
+                bname, world, seq, entry, route, d))
         if a["error"] and not bad:
-            raise HarnessError("reference run raised on base %s world %s seq %s: %s %s" % (
-                bname, world, seq, a["error"], a.get("error_msg")))
+            raise HarnessError("reference run raised on base %s world %s seq %s entry=%s route=%s: %s %s" % (
+                bname, world, seq, entry, route, a["error"], a.get("error_msg")))
         if d is not None or a["error"]:
             a = None  # unusable as a reference (already reported as a violation above)
-        with open(os.path.join(scratch, "refs", _ref_key(gname, bname, world, seq) + ".pkl"), "wb") as f:
+        with open(os.path.join(scratch, "refs", _ref_key(gname, bname, world, seq, route, entry) + ".pkl"), "wb") as f:
             pickle.dump(a, f)
         if a is not None:
             st.distinct("ref_logsets", sorted(k for k in a["tree"] if k.startswith("logs/")))
@@ -628,8 +766,8 @@ def _validate(raw: dict) -> Optional[dict]:
 
 
 def check_case(scratch: str, gname: str, base_raw: dict, assign, world: str, seq, ref=None, ref_v=None,
-               var_v=None) -> Optional[Tuple[str, str]]:
-    """Differential of one (gate, base, assignment, world, sequence).  Returns (artefact, detail) or None."""
+               var_v=None, route: str = "stash", entry: str = "turn") -> Optional[Tuple[str, str]]:
+    """Differential of one (gate, base, assignment, world, sequence, route, entry).  Returns (artefact, detail) or None."""
     if ref_v is None:
         ref_v = _validate(base_raw)
     raw = raw_for(base_raw, assign)
@@ -638,13 +776,13 @@ def check_case(scratch: str, gname: str, base_raw: dict, assign, world: str, seq
     if var_v is None:
         return None
     if ref is None:
-        ref = execute(scratch, world, base_raw, seq, "ref")
-    var = execute(scratch, world, raw, seq, "var")
+        ref = execute(scratch, world, base_raw, seq, "ref", route, entry)
+    var = execute(scratch, world, raw, seq, "var", route, entry)
     return diff(ref, var, allowed_extra_for(raw, var_v, ref_v))
 
 
-def _sig(gname: str, assign, artefact: str) -> str:
-    return "%s:%s:%s" % (gname, "+".join(sorted(p for p, _ in assign)), artefact)
+def _sig(gname: str, assign, artefact: str, route: str = "stash", entry: str = "turn") -> str:
+    return "%s:%s:%s%s" % (gname, "+".join(sorted(p for p, _ in assign)), artefact, _vtag(route, entry))
 
 
 def _assign_worker(chunk, st: Stats, scratch: str, thorough: bool):
@@ -653,7 +791,7 @@ def _assign_worker(chunk, st: Stats, scratch: str, thorough: bool):
     os.makedirs(wdir, exist_ok=True)
     base_cache: Dict[Tuple[str, bool], Dict[str, dict]] = {}
     refv_cache: Dict[Tuple[str, str], Tuple[dict, str]] = {}
-    for gname, assign, k in chunk:
+    for gname, assign, k, n_leaves in chunk:
         k2 = (k == 2)
         bkey = (gname, k2)
         if bkey not in base_cache:
@@ -687,20 +825,23 @@ def _assign_worker(chunk, st: Stats, scratch: str, thorough: bool):
                 st.distinct("outcomes", "validated-config-identical")
                 continue
             allowed = allowed_extra_for(raw, var_v, ref_v)
-            seqs = seqs_for(thorough, k, bname)
-            for world in WORLDS:
+            for route, entry, seqs, worlds in variants_for(gname, k, bname, n_leaves, thorough):
+              default_variant = (route, entry) == DEFAULT_VARIANT
+              for world in worlds:
                 for seq in seqs:
-                    ref = _load_ref(scratch, _ref_key(gname, bname, world, seq))
+                    ref = _load_ref(scratch, _ref_key(gname, bname, world, seq, route, entry))
                     if ref is None:
                         st.add("skipped_reference_unusable")
                         continue
-                    var = execute(wdir, world, raw, seq, "var")
+                    var = execute(wdir, world, raw, seq, "var", route, entry)
                     executed_any = True
                     st.add("transitions", len(seq))
                     st.add("validated")
-                    st.distinct("states", [gname, bname, assign, world, seq])
+                    st.add("validated_entry_%s_route_%s" % (entry, route))
+                    st.distinct("states", [gname, bname, assign, world, seq] + ([] if default_variant else [route, entry]))
                     d = diff(ref, var, allowed)
-                    case = {"gate": gname, "base": bname, "assign": assign, "world": world, "turns": seq}
+                    case = {"gate": gname, "base": bname, "assign": assign, "world": world, "turns": seq,
+                            "route": route, "entry": entry}
                     if d is None:
                         st.distinct("outcomes", "equal" + (":shadow-trace-behind-open-perf-gate" if allowed else ""))
                         if allowed:
@@ -712,17 +853,18 @@ def _assign_worker(chunk, st: Stats, scratch: str, thorough: bool):
                         for sub in assign:
                             if any(_has_path(base_raw, p) for p, _ in [sub]):
                                 continue
-                            ds = check_case(wdir, gname, base_raw, [sub], world, seq, ref=ref, ref_v=ref_v)
+                            ds = check_case(wdir, gname, base_raw, [sub], world, seq, ref=ref, ref_v=ref_v,
+                                            route=route, entry=entry)
                             st.add("transitions", len(seq))
                             if ds is not None:
                                 min_assign, (art, detail) = [sub], ds
                                 break
                     case["assign"] = min_assign
-                    sig = _sig(gname, min_assign, art)
+                    sig = _sig(gname, min_assign, art, route, entry)
                     st.distinct("outcomes", "differs:" + sig)
                     st.add("differing_runs")
-                    st.violation(sig, "gate %s OFF, base %s, %s, turns %s: with %s %s" % (
-                        gate, bname, world, seq, json.dumps(dict(min_assign)), detail), case)
+                    st.violation(sig, "gate %s OFF, base %s, %s, turns %s, entry=%s route=%s: with %s %s" % (
+                        gate, bname, world, seq, entry, route, json.dumps(dict(min_assign)), detail), case)
         if executed_any:
             st.distinct("nontrivial", [gname, assign])
             if h64([gname, assign]) % 257 == 0:
@@ -758,30 +900,36 @@ def run(run: Run) -> None:
     run.notes["leaves_without_typed_menu(probed with universal menu)"] = untyped
     run.notes["menu_entries_not_in_validator_tables"] = stale
 
-    ks = [1, 2] if run.thorough else [1]
-    # references: every (base, world, sequence) that will be compared against, each executed twice
+    ks_by_gate = {g: ks_for(g, len(leaves_by_gate[g]), run.thorough) for g in GATES}
+    run.notes["k_per_gate"] = ks_by_gate
+    # references: every (base, world, sequence, route, entry) that will be compared against, each executed twice
     ref_items = []
     seen = set()
+    n_variant_refs: Dict[str, int] = {}
     for g in GATES:
-        for k in ks:
+        nl = len(leaves_by_gate[g])
+        for k in ks_by_gate[g]:
             for bname, raw in bases_for(g, tier_k2=(k == 2), quick=not run.thorough).items():
-                seqs = seqs_for(run.thorough, k, bname)
-                for world in WORLDS:
-                    for seq in seqs:
-                        key = _ref_key(g, bname, world, seq)
-                        if key not in seen:
-                            seen.add(key)
-                            ref_items.append((g, bname, raw, world, seq))
+                for route, entry, seqs, worlds in variants_for(g, k, bname, nl, run.thorough):
+                    for world in worlds:
+                        for seq in seqs:
+                            key = _ref_key(g, bname, world, seq, route, entry)
+                            if key not in seen:
+                                seen.add(key)
+                                ref_items.append((g, bname, raw, world, seq, route, entry))
+                                vk = "entry=%s,route=%s" % (entry, route)
+                                n_variant_refs[vk] = n_variant_refs.get(vk, 0) + 1
     run.notes["reference_scenarios"] = len(ref_items)
+    run.notes["reference_scenarios_per_variant"] = n_variant_refs
     run.pmap(_ref_worker, ref_items, extra=(run.scratch,))
 
     items = []
     n_assign = {}
     for g in GATES:
-        for k in ks:
+        for k in ks_by_gate[g]:
             a = assignments(g, leaves_by_gate[g], k, run.thorough)
             n_assign["%s:k=%d" % (g, k)] = len(a)
-            items.extend((g, x, k) for x in a)
+            items.extend((g, x, k, len(leaves_by_gate[g])) for x in a)
     run.notes["assignments"] = n_assign
     run.notes["bases_per_gate"] = {g: sorted(bases_for(g, quick=not run.thorough)) for g in GATES}
     # interleave cheap and expensive items deterministically
@@ -795,7 +943,18 @@ def run(run: Run) -> None:
                  "values of each x bases {'base', 'all other gates ON'} x {W1,W2} x 4 sequences")
     else:
         scope = ("k=1: every menu value x the 10 main bases with the gate OFF (incl. 'all other gates ON') x worlds "
-                 "{W1,W2} x 3 representative 2-turn sequences over agents {A,B} x texts {apple, pear fig, zzz}")
+                 "{W1,W2} x 3 representative 2-turn sequences over agents {A,B} x texts {apple, pear fig, zzz}; k=2 "
+                 "(every pair of leaves x the two most active values of each x bases {'base', 'all other gates ON'}) "
+                 "for the gates whose subtree has <= %d leaves (%s), because a gate predicate may be a conjunction of "
+                 "several leaves of the closed subtree" % (
+                     K2_QUICK_MAX_LEAVES, ", ".join(g for g in GATES if 2 in ks_by_gate[g]) or "none"))
+    scope += ("; entry points: every case above through Orchestrator.run_turn per turn, every k=1 case ALSO through the "
+              "agent batch driver _run_agents_parallel_batch (the sequence as one batch; %s), k=2 through the batch "
+              "driver for the small-subtree gates; planner request routes: stashed state flag everywhere, and for the "
+              "reflection gate every case ALSO with a planner whose plan carries reflection=True (hook "
+              "orchestrator.t3_deliberate around the real deliberate())" % (
+                  "the 4 representative sequences, both worlds" if run.thorough
+                  else "the agent-switching sequence on world W2"))
     run.rule = (
         "for each of the 7 gates: every assignment of the gate's subtree (leaves derived from the ALLOWED_* tables of "
         "configs/validate.py) with <=k leaves set, validated by validate_config (rejections counted and skipped); "
@@ -809,8 +968,13 @@ def run(run: Run) -> None:
                "perf.metrics.report_memory && t2.quality.shadow && !t2.quality.enabled): when that documented triple "
                "gate is open in the variant the trace directory is the one expected extra artefact, everything else "
                "must still be identical; when it is closed no trace directory may appear")
-    run.assume("worlds carry the planner's reflection request flag (so that t3.allow_reflection is the only barrier "
-               "in front of reflection) and an empty state['memory_index'] that receives reflection writes")
+    run.assume("every scenario carries a planner request for reflection (so that t3.allow_reflection is the only barrier "
+               "in front of reflection) -- either the stashed state flag or, for the reflection gate's legs, "
+               "Plan.reflection=True -- and an empty state['memory_index'] that receives reflection writes")
+    run.assume("the batch-driver entry is only explored with the agent-level driver's own switch closed in the "
+               "reference (no base sets perf.parallel.agents), i.e. reference and variant are both expected to take "
+               "the driver's sequential fallback; the differential is always within one entry point and one route; "
+               "log staging (a context variable the driver sets) is reset by the harness around every execution")
     run.assume("raw wall-clock fields ms* of the non-canonical streams t3.jsonl, t3_plan.jsonl, t3_dialogue.jsonl "
                "(and gel.jsonl / scheduler.jsonl consumed.ms where that feature is ON in both runs) are masked; "
                "nothing else is")
@@ -828,13 +992,16 @@ def replay(case):
         if base_raw is None:
             raise HarnessError("unknown base %r for gate %s" % (case["base"], g))
         assign = [list(x) for x in case["assign"]]
+        route, entry = case.get("route", "stash"), case.get("entry", "turn")
         if not assign:
-            obs = execute(d, case["world"], base_raw, case["turns"], "ref")
-            return [("%s:-:artefact:%s" % (g2, path), "artefact %s written with the gate of %s off" % (path, g2))
+            obs = execute(d, case["world"], base_raw, case["turns"], "ref", route, entry)
+            return [("%s:-:artefact:%s%s" % (g2, path, _vtag(route, entry)),
+                     "artefact %s written with the gate of %s off" % (path, g2))
                     for g2, path in forbidden_artefacts(_validate(base_raw), obs.get("tree", {}))]
-        res = check_case(d, g, base_raw, assign, case["world"], [tuple(t) for t in case["turns"]])
+        res = check_case(d, g, base_raw, assign, case["world"], [tuple(t) for t in case["turns"]],
+                         route=route, entry=entry)
         if res is None:
             return []
-        return [(_sig(g, assign, res[0]), res[1])]
+        return [(_sig(g, assign, res[0], route, entry), res[1])]
     finally:
         shutil.rmtree(d, ignore_errors=True)
